@@ -24,6 +24,7 @@ func CheckIfAccountIsSuitableForDestroying(account sdk.AccountI) (destroyable bo
 // It returns false and the reason if the account:
 //  1. Is a module account.
 //  2. Is a vesting account which still not expired at the reference time.
+//  3. Is a permanent locked account (never expires).
 func CheckIfAccountIsSuitableForDestroyingAt(account sdk.AccountI, at time.Time) (destroyable bool, reason string) {
 	if account == nil || reflect.ValueOf(account).IsNil() {
 		panic("account is nil")
@@ -31,6 +32,12 @@ func CheckIfAccountIsSuitableForDestroyingAt(account sdk.AccountI, at time.Time)
 
 	if _, isModuleAcc := account.(sdk.ModuleAccountI); isModuleAcc {
 		reason = "module account is not suitable for destroying"
+		return
+	}
+
+	if _, isPermanentLockedAcc := account.(*vestingtypes.PermanentLockedAccount); isPermanentLockedAcc {
+		// the end time of a permanent locked account is zero, but its coins are locked forever so it never expires
+		reason = "permanent locked account is not suitable for destroying"
 		return
 	}
 
